@@ -2,7 +2,7 @@
 
 A case is {"fmt": "bam", "refs", "records", "text", "cuts", "program"}.  The file is produced by the independent encoder
 (pbt/bamenc.py).  Program steps, all plain data:
-    {"op": "slice"|"mask"|"ilist", "src": k, ...}   NumPy-style selection of pool entry k (modulo pool size) -> new pool entry
+    {"op": "slice"|"mask"|"ilist"|"perm", "src": k, ...}   NumPy-style selection of pool entry k (modulo pool size) -> new pool entry
     {"op": "concat", "srcs": [a, b]}                np.concatenate of two pool entries -> new pool entry
     {"op": "get", "src": k, "field": name}          read one field and compare it
     {"op": "rows", "src": k}                        read every field and compare
@@ -65,6 +65,20 @@ def resolve_index(op, n):
     if kind == "mask":
         bits = [bool(op["bits"][i % len(op["bits"])]) for i in range(n)] if op["bits"] else [False] * n
         return bits, np.array(bits, dtype=bool)
+    if kind == "perm":
+        # a selection as long as the table that is not the identity: reversal, rotation, swapped neighbours, or the interior
+        # reversed with both end records kept in place (first lowest, last highest: the selection spans exactly the original bytes)
+        k = op["seed"]
+        if k % 4 == 0:
+            idx = list(range(n))[::-1]
+        elif k % 4 == 1:
+            r = (1 + k // 4) % n if n else 0
+            idx = list(range(r, n)) + list(range(r))
+        elif k % 4 == 2:
+            idx = [i + 1 if i % 2 == 0 and i + 1 < n else (i - 1 if i % 2 == 1 else i) for i in range(n)]
+        else:
+            idx = ([0] + list(range(n - 2, 0, -1)) + [n - 1]) if n >= 2 else list(range(n))
+        return idx, np.array(idx, dtype=int)
     idx = [(i % (2 * n)) - n for i in op["idx"]] if n else []
     return idx, np.array(idx, dtype=int)
 
@@ -230,7 +244,9 @@ def classify(case):
     prog = case["program"]
     kinds = [op["op"] for op in prog]
     cl = ["bam"]
-    sel = ("slice", "mask", "ilist")
+    sel = ("slice", "mask", "ilist", "perm")
+    if "perm" in kinds:
+        cl.append("bam-same-length-permutation")
     for i, k in enumerate(kinds):
         if k == "write" and any(x in sel for x in kinds[:i]):
             cl.append("bam-write-selection")
@@ -256,9 +272,10 @@ def op_strategy():
     mask = st.lists(st.booleans(), min_size=1, max_size=6).map(lambda b: {"op": "mask", "src": 0, "bits": [int(x) for x in b]})
     ilist = st.lists(st.integers(0, 30), min_size=0, max_size=6).map(lambda i: {"op": "ilist", "src": 0, "idx": i})
     concat = st.tuples(st.integers(0, 9), st.integers(0, 9)).map(lambda t: {"op": "concat", "srcs": list(t)})
+    perm = st.integers(0, 23).map(lambda k: {"op": "perm", "src": 0, "seed": k})
     get = st.sampled_from(FIELDS).map(lambda f: {"op": "get", "src": 0, "field": f})
     obs = st.sampled_from([{"op": "write", "src": 0}, {"op": "write", "src": 0}, {"op": "rows", "src": 0}, {"op": "len", "src": 0}])
-    base = st.one_of(sl, mask, ilist, ilist, get, get, obs, obs, concat)
+    base = st.one_of(sl, mask, ilist, ilist, perm, get, get, obs, obs, concat)
 
     def with_src(op, src):
         return dict(op, src=src) if "src" in op else op
@@ -282,7 +299,7 @@ def program_strategy(max_steps):
     """A program is a sequence of phrases: single random steps, or short chains on the most recent table (src -1) of the shape
     select - read some fields - write - read other fields, which is where state kept per table (cached offsets, assembled buffers) can go stale."""
     op = op_strategy()
-    sel = op.filter(lambda o: o["op"] in ("slice", "mask", "ilist"))
+    sel = op.filter(lambda o: o["op"] in ("slice", "mask", "ilist", "perm"))
     get_last = st.sampled_from(FIELDS).map(lambda f: {"op": "get", "src": -1, "field": f})
     chain = st.builds(lambda s, before, after, tail: [s] + before + [{"op": "write", "src": -1}] + after + tail,
                       sel, st.lists(get_last, max_size=2), st.lists(get_last, max_size=2),
